@@ -24,6 +24,8 @@ func init() {
 			ruleRangeOps(r)
 			ruleRangeDetails(r)
 			ruleAggregatorReset(r)
+			ruleSelectLogsWindow(r)
+			ruleMergeIter(r) // windows are filled from a time-ordered sample stream (fillWindow stops at the first sample after the window)
 		},
 	})
 }
